@@ -178,7 +178,7 @@ def report(mod, prop, tier, seed, ctx, results, wall, pre_info, partial=False):
                 violations.append((q, rep, save_replay(prop, q, rep, ctx)))
     # vacuity across the sweep: every witness of a harness must be reached by at
     # least one query of that harness (each query already needs >= 1 witness)
-    if not partial:
+    if not partial and getattr(mod, "GROUP_WITNESS", True):
         groups = {}
         for r in results:
             g = groups.setdefault(r.q.group, {"ok": set(), "missing": set()})
